@@ -1,6 +1,6 @@
 (* C01vm — compile_correct: one lemma per compile function, composed by structural induction. *)
 From Coq Require Import List NArith ZArith Bool Arith Lia.
-From Verif Require Import c01vm.Syntax c01vm.Code c01vm.VM c01vm.Den c01vm.Compile c01vm.Mach c01vm.Gen c01vm.Lemmas.
+From Verif Require Import c01vm.Syntax c01vm.Code c01vm.VM c01vm.Den c01vm.Compile c01vm.Mach c01vm.Gen c01vm.Lemmas c01vm.Static.
 Import ListNotations.
 
 Section C.
@@ -136,6 +136,14 @@ Proof.
   - intros pc'' st' fk' lo hi ce' n0' x y k k' Hp C Hk. eapply S2; [exact Hp| |exact Hk]. exact C.
 Qed.
 
+Lemma Tend_sub : forall cb c fin (P : list sv -> nat -> Prop) s,
+  g_base cb = g_base c -> g_ce cb = g_ce c -> (forall i, g_own cb i -> g_own c i) ->
+  Tend cb fin P s -> Tend c fin P s.
+Proof.
+  intros cb c fin P s H1 H2 H3 (e & vs & n & St & Ch & Le & HE & HP). exists e, vs, n.
+  rewrite <- H1, <- H2. split; [auto|]. split; [eapply chg_mono; eauto|]. auto.
+Qed.
+
 Lemma impl_pipe : forall a b, Impl a -> Impl b -> Impl (QPipe a b).
 Proof.
   intros a b IHa IHb. impl_intro. simpl in Hc. dcomp. inversion Hc; subst cq nv'. clear Hc.
@@ -178,6 +186,278 @@ Proof.
       + split; auto.
     - simpl. split; auto. }
   destruct x as [e|]; (eapply G_impl; [|exact HG]); intros s0; apply Tend_weaken; intros p m (_ & _ & _ & Hp); exact Hp.
+Qed.
+
+(* P := Jstd is itself stable in a context whose own range lies inside [nv, hi) *)
+Lemma Jstd_stable : forall pc' st fk lo hi' K ce' n0' ce rho n0 nv hi (P : list sv -> nat -> Prop),
+  (forall (O : nat -> Prop) x y k k', (forall i, O i -> nv <= i < hi) -> P x k -> chg O x y -> k <= k' -> P y k') ->
+  (forall pc'' st' fk' lo hi ce' n0' x y k k', P x k -> keepS (ctx_of pc'' st' fk' lo hi K ce' n0') x y -> k <= k' -> P y k') ->
+  (forall i, kept ce i -> K i) -> nv <= lo -> hi' <= hi ->
+  stable (ctx_of pc' st fk lo hi' K ce' n0') (Jstd ce rho n0 nv hi P).
+Proof.
+  intros pc' st fk lo hi' K ce' n0' ce rho n0 nv hi P S1' S2' HK2 H1 H2. split.
+  - intros p q m m' Hj C Hm.
+    refine (Jstd_chg _ _ _ _ _ _ _ _ _ _ _ (fun x y k k' => S1' _ x y k k' _) _ Hj C Hm); simpl; intros; lia.
+  - intros p q m m' Hj C Hm.
+    refine (Jstd_keep _ _ _ _ _ _ _ _ _ _ _ (fun x y k k' => S2' _ _ _ _ _ _ _ x y k k') _ Hj C Hm). exact HK2.
+Qed.
+
+Lemma fork_transparent : forall pc t st fk x vs n, at_ pc (Ifork t) ->
+  steps (B (Some x) (F rpc pc st :: fk) vs n) (B (Some x) fk vs n).
+Proof. intros. one st_popfork. one bt_fork_err. constructor. Qed.
+
+Lemma impl_comma : forall a b, Impl a -> Impl b -> Impl (QComma a b).
+Proof.
+  intros a b IHa IHb. impl_intro. simpl in Hc. dcomp. inversion Hc; subst cq nv'. clear Hc.
+  rename l into ca, l0 into cb.
+  uncons Hat A1. destruct (code_at_app _ _ _ _ Hat) as [Hata Hat2]. uncons Hat2 A2. rename Hat2 into Hatb.
+  pose proof (comp_mono _ _ _ _ _ _ Ec) as M1. pose proof (comp_mono _ _ _ _ _ _ Ec0) as M2.
+  assert (Hkl : forall i, kept ce i -> i < nv) by (intros; eapply kept_lt; eauto).
+  destruct (stable_sub _ _ _ _ _ _ _ _ _ (conj S1 S2)) as [S1' S2']. clear S1 S2.
+  set (L := pc + 1 + length ca + 1) in *.
+  replace (S (S pc + length ca)) with L in Hatb by (unfold L; lia).
+  assert (Epc : pc + length (Ifork L :: ca ++ Ijump (L + length cb) :: cb) = L + length cb).
+  { simpl. rewrite app_length. simpl. unfold L. lia. }
+  subst c. rewrite Epc.
+  set (c := ctx_of (L + length cb) st fk nv n2 K ce n0).
+  set (fx := F rpc pc (SV v :: st)).
+  set (Pa := Jstd ce rho n0 nv n2 P).
+  (* a, with the fork of the comma below its forks *)
+  assert (HA : G (ctx_of (S pc + length ca) st (fx :: fk) nv n1 K ce n0) (fst (den a rho v))
+                 (Tend (ctx_of (S pc + length ca) st (fx :: fk) nv n1 K ce n0) (snd (den a rho v)) Pa)
+                 (N (S pc) (SV v :: st) (fx :: fk) vs n)).
+  { apply (IHa ce (S pc) nv ca n1 Ec Hata rho v st (fx :: fk) vs n n0 K Pa); auto; try lia.
+    - intros; apply HK1; lia.
+    - apply Jstd_stable; auto.
+    - split; auto. }
+  apply G_exit with (pc2 := L + length cb) in HA.
+  2:{ intros w f vs' n'. one st_jump. constructor. }
+  eapply G_pre; [one st_fork; constructor|apply chg_refl|simpl; lia|].
+  set (ca' := {| g_pc := L + length cb; g_st := st; g_base := fx :: fk; g_own := fun i => nv <= i < n1;
+                 g_keep := K; g_ce := ce; g_n0 := n0 |}) in HA.
+  cbn [Den.den]. destruct (den a rho v) as [wsa [xa|]] eqn:Ea; cbn [seq fst snd] in *.
+  - (* a raised: the fork propagates the error *)
+    refine (G_ctx nt code rpc ca' c [fx] (fun _ _ => True) _ _ eq_refl eq_refl eq_refl _ _ (le_n _) _ _ _ _ _ _ I HA); auto.
+    + simpl; intros; lia.
+    + intros x vs' n' _ _. exists vs', n'. split; [eapply fork_transparent; eauto|]. split; [apply chg_refl|lia].
+    + intros s1 _ (e & vs4 & n4 & St4 & Ch4 & Le4 & HE4 & HP4).
+      destruct (encR_some _ _ _ _ HE4) as (y & ->). simpl in St4, Ch4, HE4.
+      exists (Some y), vs4, n4. split; [eapply steps_trans; [exact St4|eapply fork_transparent; eauto]|].
+      split; [eapply chg_mono; [|exact Ch4]; simpl; intros; lia|]. split; [auto|]. split; [exact HE4|apply HP4].
+  - (* a ended: the fork resumes at b *)
+    apply G_app.
+    refine (G_ctx nt code rpc ca' c [fx] (fun _ _ => True) _ _ eq_refl eq_refl eq_refl _ _ (le_n _) _ _ _ _ _ _ I HA); auto.
+    + simpl; intros; lia.
+    + intros x vs' n' _ _. exists vs', n'. split; [eapply fork_transparent; eauto|]. split; [apply chg_refl|lia].
+    + intros s1 _ (e & vs4 & n4 & St4 & Ch4 & Le4 & HE4 & (E4 & Hn4 & Hl4 & HP4)). simpl in St4, Ch4, HE4. subst e.
+      eapply G_pre; [eapply steps_trans; [exact St4|one st_popfork; one bt_fork_none; constructor]
+                    |eapply chg_mono; [|exact Ch4]; simpl; intros; lia|exact Le4|].
+      pose proof (IHb ce L n1 cb n2 Ec0 Hatb rho v st fk vs4 n4 n0 K P) as HB.
+      refine (G_sub nt code rpc (ctx_of (L + length cb) st fk n1 n2 K ce n0) c _ _ eq_refl eq_refl eq_refl _ _ (le_n _) _ _ _ (HB _ _ _ _ _ _ _)); auto.
+      * simpl; intros; lia.
+      * intros s2. apply Tend_sub; auto. simpl; intros; lia.
+      * eapply envOK_nv; eauto.
+      * intros; apply HK1; lia.
+      * split; [intros p q m m' Hp C Hm; eapply S1'; eauto; simpl; intros; lia|intros p q m m' Hp C Hm; eapply S2'; eauto].
+Qed.
+
+(* G_fold with the standard side conditions discharged *)
+Lemma fold_std : forall pc1 st1 lo1 hi1 pc' st fk nv nv' K ce n0 rho (P : list sv -> nat -> Prop)
+   (X : Type) (Jg : X -> list sv -> Prop) (fb : X -> jv -> list jv * option exn * X)
+   (ownb : nat -> Prop) (ceb : cenv),
+   let c := ctx_of pc' st fk nv nv' K ce n0 in
+   let c1 := ctx_of pc1 st1 fk lo1 hi1 (fun i => lo1 <= i < hi1 \/ kept ce i) ce n0 in
+   let J := fun g a m => Jstd ce rho n0 nv nv' P a m /\ Jg g a in
+   stable c P -> nv <= lo1 -> hi1 <= nv' ->
+   (forall i, kept ce i -> i < nv) -> (forall i, nv <= i < nv' -> K i) -> (forall i, kept ce i -> K i) ->
+   (forall i, ownb i -> nv <= i < nv' /\ ~ (lo1 <= i < hi1)) ->
+   ce_lbls ceb = ce_lbls ce ->
+   (forall g a b, Jg g a -> chg (fun i => lo1 <= i < hi1) a b -> Jg g b) ->
+   (forall w g fk' vs n os x g', J g vs n -> fb g w = (os, x, g') ->
+        G (cbody c ownb ceb fk') os (Tend (cbody c ownb ceb fk') x (J g')) (N pc1 (SV w :: st1) (fk' ++ fk) vs n)) ->
+   forall ws1 g s fin1 os x g',
+     G c1 ws1 (Tend c1 fin1 (fun _ _ => True)) s -> J g (vars_of s) (lbl_of s) -> foldgen X fb ws1 g = (os, x, g') ->
+     G c os (Tend c (match x with Some e => Some e | None => fin1 end) (J g')) s.
+Proof.
+  intros pc1 st1 lo1 hi1 pc' st fk nv nv' K ce n0 rho P X Jg fb ownb ceb c c1 J HS H1 H2 Hkl HK1 HK2 Hob Hlb HJg Hbody
+         ws1 g s fin1 os x g' HA HJ Ef.
+  destruct (stable_sub _ _ _ _ _ _ _ _ _ HS) as [S1' S2'].
+  refine (G_fold nt code rpc c1 c X J fb ownb ceb eq_refl eq_refl eq_refl _ _ _ _ Hlb _ _ Hbody ws1 g s fin1 os x g' HA HJ Ef).
+  - simpl; intros; lia.
+  - intros i Hi. apply Hob in Hi. simpl. tauto.
+  - simpl. intros i [Hi|Hi]; split.
+    + apply HK1; lia. + intro Ho. apply Hob in Ho. tauto.
+    + apply HK2; auto. + intro Ho. apply Hob in Ho. apply Hkl in Hi. lia.
+  - simpl. intros i Hi. apply Hkl in Hi. lia.
+  - intros g0 p q m m' [Hj Hg] C Hm. split; [|eapply HJg; eauto].
+    refine (Jstd_chg _ _ _ _ _ _ _ _ _ _ _ (fun x y k k' => S1' _ x y k k' _) _ Hj C Hm); simpl; intros; lia.
+  - intros g0 p m [(E & _) _]. eapply envOK_lblOK; eauto.
+Qed.
+
+(* an Impl used as inner generator *)
+Lemma impl_inner : forall q, Impl q -> forall ce pc nv cq nv', comp q ce pc nv = Some (cq, nv') -> code_at pc cq ->
+  forall rho v st fk vs n n0, envOK ce rho vs n0 nv -> n0 <= n -> nv' <= length vs ->
+  let c1 := ctx_of (pc + length cq) st fk nv nv' (fun i => nv <= i < nv' \/ kept ce i) ce n0 in
+  G c1 (fst (den q rho v)) (Tend c1 (snd (den q rho v)) (fun _ _ => True)) (N pc (SV v :: st) fk vs n).
+Proof.
+  intros q IH ce pc nv cq nv' Ec Hat rho v st fk vs n n0 HE Hn Hl c1.
+  apply (IH ce pc nv cq nv' Ec Hat rho v st fk vs n n0 _ (fun _ _ => True)); auto. split; auto.
+Qed.
+
+(* opiter enumerating the rest of a list *)
+Lemma G_iter_list : forall cx pcI (P : list sv -> nat -> Prop), at_ pcI Iiter -> g_pc cx = S pcI ->
+  (forall a b m m', P a m -> keepS cx a b -> m <= m' -> P b m') ->
+  forall xs vs n, P vs n ->
+  G cx xs (Tend cx None P) (iter_state rpc pcI xs (g_st cx) (g_base cx) vs n).
+Proof.
+  intros cx pcI P Hat Hpc HP. induction xs as [|x r IH]; intros vs n Hp.
+  - simpl. eapply G_end; [apply steps_refl|apply chg_refl|simpl; lia|reflexivity|auto].
+  - destruct r as [|y r].
+    + simpl. eapply G_single; [rewrite Hpc; apply steps_refl|apply chg_refl|simpl; lia|].
+      intros; eapply HP; eauto.
+    + change (G cx (x :: y :: r) (Tend cx None P)
+                (N (S pcI) (SV x :: g_st cx) (F rpc pcI (SIt (y :: r) :: g_st cx) :: g_base cx) vs n)).
+      eapply (G_cons nt code rpc cx x (y :: r) _ _ [F rpc pcI (SIt (y :: r) :: g_st cx)] vs n);
+        [rewrite Hpc; apply steps_refl|apply chg_refl|simpl; lia|].
+      intros vs2 n2 Kp L2. split.
+      * simpl app. eapply G_pre; [one st_popfork; one bt_iter_none; apply steps_refl|rewrite iter_state_vars; apply chg_refl|rewrite iter_state_lbl; simpl; lia|].
+        apply IH. eapply HP; eauto.
+      * intros e _. exists vs2, n2. simpl app. split; [one st_popfork; one bt_iter_err; apply steps_refl|].
+        split; [apply chg_refl|lia].
+Unshelve. all: try exact None. all: try exact 0. all: try exact []. Qed.
+
+Lemma G_iter : forall cx pcI (P : list sv -> nat -> Prop) w vs n, at_ pcI Iiter -> g_pc cx = S pcI ->
+  (forall a b m m', P a m -> keepS cx a b -> m <= m' -> P b m') -> P vs n ->
+  G cx (fst (iter_res nt w)) (Tend cx (snd (iter_res nt w)) P) (N pcI (SV w :: g_st cx) (g_base cx) vs n).
+Proof.
+  intros cx pcI P w vs n Hat Hpc HP Hp. unfold iter_res. destruct (n_iter nt w) as [xs|e] eqn:E; cbn [fst snd].
+  - eapply G_pre; [one st_iter_ok; apply steps_refl|rewrite iter_state_vars; apply chg_refl
+                  |rewrite iter_state_lbl; simpl; lia|eapply G_iter_list; eauto].
+  - eapply G_end; [one st_iter_err; constructor|apply chg_refl|simpl; lia|reflexivity|auto].
+Qed.
+
+Lemma G_index : forall cx pcI k (P : list sv -> nat -> Prop) w vs n, at_ pcI (Iindex k) -> g_pc cx = S pcI ->
+  (forall a b m m', P a m -> keepS cx a b -> m <= m' -> P b m') -> P vs n ->
+  G cx (fst (of_sum (n_index nt w k))) (Tend cx (snd (of_sum (n_index nt w k))) P)
+    (N pcI (SV w :: g_st cx) (g_base cx) vs n).
+Proof.
+  intros cx pcI k P w vs n Hat Hpc HP Hp. destruct (n_index nt w k) as [r|e] eqn:E; cbn [of_sum fst snd].
+  - eapply G_single; [rewrite Hpc; one st_index_ok; constructor|apply chg_refl|simpl; lia|].
+    intros; eapply HP; eauto.
+  - eapply G_end; [one st_index_err; constructor|apply chg_refl|simpl; lia|reflexivity|auto].
+Qed.
+
+(* t followed by one instruction that is a generator on the top of the stack *)
+Lemma postfix_std : forall t (f : jv -> result) (i : instr), Impl t ->
+  (forall cx pcI (P : list sv -> nat -> Prop) w vs n, at_ pcI i -> g_pc cx = S pcI ->
+     (forall a b m m', P a m -> keepS cx a b -> m <= m' -> P b m') -> P vs n ->
+     G cx (fst (f w)) (Tend cx (snd (f w)) P) (N pcI (SV w :: g_st cx) (g_base cx) vs n)) ->
+  forall ce pc nv ct nv', comp t ce pc nv = Some (ct, nv') -> code_at pc (ct ++ [i]) ->
+  forall rho v st fk vs n n0 (K : nat -> Prop) (P : list sv -> nat -> Prop),
+    envOK ce rho vs n0 nv -> n0 <= n -> nv' <= length vs ->
+    (forall i, nv <= i < nv' -> K i) -> (forall i, kept ce i -> K i) ->
+    let c := ctx_of (pc + length (ct ++ [i])) st fk nv nv' K ce n0 in
+    stable c P -> P vs n ->
+    G c (fst (bind (den t rho v) f)) (Tend c (snd (bind (den t rho v) f)) P) (N pc (SV v :: st) fk vs n).
+Proof.
+  intros t f i IHt Hbody ce pc nv ct nv' Ec Hat rho v st fk vs n n0 K P HE Hn Hlen HK1 HK2 c HS HP.
+  destruct (code_at_app _ _ _ _ Hat) as [Hatt Hati]. uncons Hati Ai.
+  pose proof (comp_mono _ _ _ _ _ _ Ec) as M1.
+  assert (Hkl : forall j, kept ce j -> j < nv) by (intros; eapply kept_lt; eauto).
+  destruct (stable_sub _ _ _ _ _ _ _ _ _ HS) as [S1' S2'].
+  pose proof (impl_inner t IHt ce pc nv ct nv' Ec Hatt rho v st fk vs n n0 HE Hn Hlen) as HA. cbv zeta in HA.
+  set (fb := fun (_ : unit) w => (fst (f w), snd (f w), tt)).
+  unfold bind.
+  pose proof (foldgen_bind f (fst (den t rho v))) as Ef. fold fb in Ef.
+  destruct (bind_list (fst (den t rho v)) f) as [os x] eqn:Eb. cbn [fst snd] in Ef.
+  assert (Epc : pc + length (ct ++ [i]) = S (pc + length ct)) by (rewrite app_length; simpl; lia).
+  pose proof (fold_std (pc + length ct) st nv nv' (pc + length (ct ++ [i])) st fk nv nv' K ce n0 rho P
+                unit (fun _ _ => True) fb (fun _ => False) ce HS (le_n _) (le_n _) Hkl HK1 HK2) as HF.
+  cbv zeta in HF.
+  assert (HG := fun H1 H2 H3 H4 => HF H1 eq_refl H2 H3 (fst (den t rho v)) tt _ (snd (den t rho v)) os x tt HA H4 Ef).
+  clear HF.
+  assert (HG' : G c os (Tend c (match x with Some e => Some e | None => snd (den t rho v) end)
+                          (fun a m => Jstd ce rho n0 nv nv' P a m /\ True)) (N pc (SV v :: st) fk vs n)).
+  { apply HG.
+    - intros j [].
+    - auto.
+    - intros w g fk' vs' n' os' x' g' [Hj _] Efb. unfold fb in Efb. inversion Efb; subst os' x' g'.
+      apply (Hbody (cbody c (fun _ => False) ce fk') (pc + length ct)); auto.
+      + intros a b m m' [Hja _] Kp Hm. split; auto.
+        refine (Jstd_keep _ _ _ _ _ _ _ _ _ _ _ (fun x y k k' => S2' _ _ _ _ _ _ _ x y k k') _ Hja Kp Hm). exact HK2.
+    - simpl. split; auto. split; auto. }
+  destruct x as [e|]; (eapply G_impl; [|exact HG']); intros s0; apply Tend_weaken;
+    intros p m ((_ & _ & _ & Hp) & _); exact Hp.
+Unshelve. all: try exact 0. all: try exact (@nil sv). all: try exact (@nil fork). all: try exact ce_empty. Qed.
+
+Lemma impl_iter : forall t, Impl t -> Impl (QIter t).
+Proof.
+  intros t IHt. impl_intro. simpl in Hc. dcomp. inversion Hc; subst cq nv'. clear Hc.
+  cbn [Den.den]. eapply postfix_std; eauto. intros; apply G_iter; auto. split; auto.
+Qed.
+
+Lemma impl_index : forall t k, Impl t -> Impl (QIndex t k).
+Proof.
+  intros t k IHt. impl_intro. simpl in Hc. dcomp. inversion Hc; subst cq nv'. clear Hc.
+  cbn [Den.den]. eapply (postfix_std t (fun w => of_sum (n_index nt w k))); eauto.
+  intros; apply G_index; auto. split; auto.
+Qed.
+
+(* generic bind: every output of an inner generator starts a body generator *)
+Lemma bind_std : forall (f : jv -> result) pc1 st1 lo1 hi1 pc' st fk nv nv' K ce n0 rho (P : list sv -> nat -> Prop)
+   (ownb : nat -> Prop) (ceb : cenv),
+   let c := ctx_of pc' st fk nv nv' K ce n0 in
+   let c1 := ctx_of pc1 st1 fk lo1 hi1 (fun i => lo1 <= i < hi1 \/ kept ce i) ce n0 in
+   stable c P -> nv <= lo1 -> hi1 <= nv' ->
+   (forall i, kept ce i -> i < nv) -> (forall i, nv <= i < nv' -> K i) -> (forall i, kept ce i -> K i) ->
+   (forall i, ownb i -> nv <= i < nv' /\ ~ (lo1 <= i < hi1)) ->
+   ce_lbls ceb = ce_lbls ce ->
+   (forall w fk' vs n, Jstd ce rho n0 nv nv' P vs n ->
+        G (cbody c ownb ceb fk') (fst (f w)) (Tend (cbody c ownb ceb fk') (snd (f w)) (Jstd ce rho n0 nv nv' P))
+          (N pc1 (SV w :: st1) (fk' ++ fk) vs n)) ->
+   forall r s, G c1 (fst r) (Tend c1 (snd r) (fun _ _ => True)) s -> Jstd ce rho n0 nv nv' P (vars_of s) (lbl_of s) ->
+     G c (fst (bind r f)) (Tend c (snd (bind r f)) P) s.
+Proof.
+  intros f pc1 st1 lo1 hi1 pc' st fk nv nv' K ce n0 rho P ownb ceb c c1 HS H1 H2 Hkl HK1 HK2 Hob Hlb Hbody r s HA HJ.
+  set (fb := fun (_ : unit) w => (fst (f w), snd (f w), tt)).
+  unfold bind.
+  pose proof (foldgen_bind f (fst r)) as Ef. fold fb in Ef.
+  destruct (bind_list (fst r) f) as [os x] eqn:Eb. cbn [fst snd] in Ef.
+  pose proof (fold_std pc1 st1 lo1 hi1 pc' st fk nv nv' K ce n0 rho P
+                unit (fun _ _ => True) fb ownb ceb HS H1 H2 Hkl HK1 HK2 Hob Hlb) as HF.
+  cbv zeta in HF.
+  assert (HG' : G c os (Tend c (match x with Some e => Some e | None => snd r end)
+                          (fun a m => Jstd ce rho n0 nv nv' P a m /\ True)) s).
+  { refine (HF _ _ (fst r) tt s (snd r) os x tt HA _ Ef); auto.
+    intros w g fk' vs' n' os' x' g' [Hj _] Efb. unfold fb in Efb. inversion Efb; subst os' x' g'.
+    eapply G_impl; [|apply Hbody; auto]. intros s0. apply Tend_weaken. auto. }
+  destruct x as [e|]; (eapply G_impl; [|exact HG']); intros s0; apply Tend_weaken;
+    intros p m ((_ & _ & _ & Hp) & _); exact Hp.
+Qed.
+
+(* an Impl used as (part of) a body, in an arbitrary context whose own set contains its range *)
+Lemma impl_body : forall q, Impl q -> forall ceq pcq nvq cq nvq', comp q ceq pcq nvq = Some (cq, nvq') -> code_at pcq cq ->
+  forall cx rhoq v vs n (P : list sv -> nat -> Prop),
+    g_pc cx = pcq + length cq ->
+    ce_lbls (g_ce cx) = ce_lbls ceq ->
+    (forall i, nvq <= i < nvq' -> g_own cx i) ->
+    (forall i, nvq <= i < nvq' -> g_keep cx i) -> (forall i, kept ceq i -> g_keep cx i) ->
+    envOK ceq rhoq vs (g_n0 cx) nvq -> g_n0 cx <= n -> nvq' <= length vs ->
+    (forall a b m m', P a m -> chg (fun i => nvq <= i < nvq') a b -> m <= m' -> P b m') ->
+    (forall a b m m', P a m -> keepS cx a b -> m <= m' -> P b m') ->
+    P vs n ->
+    G cx (fst (den q rhoq v)) (Tend cx (snd (den q rhoq v)) P) (N pcq (SV v :: g_st cx) (g_base cx) vs n).
+Proof.
+  intros q IH ceq pcq nvq cq nvq' Ec Hat cx rhoq v vs n P Hpc Hlb Hown Hk1 Hk2 HE Hn Hl HP1 HP2 HP.
+  pose proof (IH ceq pcq nvq cq nvq' Ec Hat rhoq v (g_st cx) (g_base cx) vs n (g_n0 cx) (g_keep cx) P HE Hn Hl Hk1 Hk2) as H.
+  cbv zeta in H.
+  refine (G_sub nt code rpc (ctx_of (pcq + length cq) (g_st cx) (g_base cx) nvq nvq' (g_keep cx) ceq (g_n0 cx))
+            cx _ _ (eq_sym Hpc) eq_refl eq_refl Hown _ (le_n _) _ _ _ (H _ HP)).
+  - intros a b Kp. exact Kp.
+  - intros s0 (e & vs4 & n4 & St & Ch & Le & HE4 & HP4). exists e, vs4, n4. simpl in *.
+    split; [exact St|]. split; [exact (chg_mono _ _ _ _ Hown Ch)|]. split; [exact Le|]. split; [|exact HP4].
+    eapply encR_lbls; [|exact HE4]. auto.
+  - split; [exact HP1|]. intros a b m m' Hp Kp Hm. eapply HP2; eauto.
 Qed.
 
 End C.
